@@ -99,6 +99,52 @@ fn dic_seed() -> Vec<u8> {
     w.b
 }
 
+/// a dictionary whose entries form one long chain (entry i leads to entry i + 1 through inner node i): no cycle,
+/// but as deep as a file of this size can describe
+fn dic_chain(n: usize) -> Vec<u8> {
+    let mut w = W::new();
+    w.fill(0x8124, 0);
+    for t in 0..3u16 {
+        for i in 0..256u16 {
+            w.u16(i ^ (t << 8));
+        }
+    }
+    let base = 0x8950u32;
+    let hdr_end = 0x8124 + 1536 + 20 + 20 + 4 + 1024;
+    let lens = [0x200u32 * 2, (n as u32 + 2) * 2, 8 * 2, 8 * 2, (n as u32 + 1) * 16];
+    let mut off = hdr_end as u32 - base;
+    for l in lens {
+        w.u32(off);
+        off += l;
+    }
+    for l in lens {
+        w.u32(l);
+    }
+    w.u32(0);
+    for i in 0..256u32 {
+        w.u32(if i == 0x30 { 1 } else { 0x100 + i });
+    }
+    for i in 0..0x200u16 {
+        w.u16(if i == 0x141 { 1 } else { 0 });
+    }
+    // inner node i -> entry i + 1 (the last one ends the chain)
+    for i in 0..n as u32 + 2 {
+        w.u16(if (i as usize) < n && i >= 1 { (i + 1).min(0xFFFF) as u16 } else { 0 });
+    }
+    for c in [b'a' as u16, 0, 0, 0, 0, 0, 0, 0] {
+        w.u16(c);
+    }
+    for _ in 0..8 {
+        w.u16(0);
+    }
+    // entry i: one character sibling, child slot i
+    w.u32(0).u32(0).u32(0).u32(0);
+    for i in 1..=n as u32 {
+        w.u32(0).u32(1).u32(i).u32(0);
+    }
+    w.b
+}
+
 fn avfx_seed() -> Vec<u8> {
     let mut w = W::new();
     w.bytes(b"XFVA").u32(0);
@@ -328,6 +374,11 @@ fn build_archive() -> Archive {
     queries.push("exd/absent.exh".into());
     queries.push("chara/absent/file.mdl".into());
     queries.push("nocategory/x".into());
+    queries.push("nofolder.dat".into());
+    queries.push("exd".into());
+    queries.push("".into());
+    queries.push("/".into());
+    queries.push("exd/".into());
     Archive { tree, queries, index, index2, dat, entry_offsets: offs }
 }
 
@@ -361,6 +412,14 @@ fn build_registry() -> Registry {
     }
     for (n, b) in crate::props::c13::seed_files(&ctx, 5 * k) {
         seeds.push(SeedFile::new("tex", n, b).marks(vec![4, 8, 10, 12, 14, 80]));
+    }
+    {
+        // the 16-bit format the texture generator of C13 does not cover (2 bytes per pixel)
+        let mut w = W::new();
+        w.u32(0x0080_0000).u32(0x1440).u16(8).u16(4).u16(1).u16(1).u32(0).u32(1).u32(2).u32(80);
+        w.pad_to(80);
+        w.bytes(&crate::build::mdl::random_bytes(11, 8 * 4 * 2));
+        seeds.push(SeedFile::new("tex", "hand-B4G4R4A4", w.b).marks(vec![4, 8, 10, 12, 14, 80]));
     }
     for (n, exh, exd) in crate::props::c05::seed_files(&ctx, 3 * k) {
         seeds.push(SeedFile::new("exh", n.clone(), exh.clone()).magic(4));
@@ -643,6 +702,10 @@ fn cyclic_links(_: &Ctx) -> Vec<RCase> {
         let mut m = b.to_vec();
         m[inner_at + 8..inner_at + 10].copy_from_slice(&2u16.to_le_bytes());
         v.push(RCase::explicit("dic", "cycle:dictionary-self-loop", vec![m]));
+    }
+    // no cycle at all, but a chain as long as a file below 1 MiB (and the 16-bit node numbers) can describe
+    for n in [1_000usize, 20_000, 52_000] {
+        v.push(RCase::explicit("dic", "cycle:dictionary-deep-chain", vec![dic_chain(n)]));
     }
     // skeleton: parent indices are data only, but object references inside the tag file can be cyclic: covered by
     // the field sweeps over the packed integers of the object section
